@@ -3,6 +3,7 @@
 From Coq Require Import List Bool NArith ZArith.
 From PV Require Import Base.Str Base.Value Base.Wire Base.WireFast Run.RState.
 From PV Require Import Run.R01.
+From PV Require Import Run.R06.
 From PV Require Import Run.R08.
 From PV Require Import Run.R09.
 From PV Require Import Run.R10.
@@ -20,6 +21,7 @@ Definition BAD : value := VStr [66; 65; 68].
 Definition dispatch (st : rstate) (op : N) (arg : value) : option (rstate * value) :=
   match op / 100 with
   | 1 => run01 st op arg
+  | 6 => run06 st op arg
   | 8 => run08 st op arg
   | 9 => run09 st op arg
   | 10 => run10 st op arg
